@@ -132,6 +132,10 @@ Fails(ev) == IF ev.out # "ret" THEN {"raised_" \o ev.out}
                     [] ev.op = "moddict" -> ModDictFails(ev)
                     [] ev.op = "fromdict" -> FromDictFails(ev)
                     [] ev.op = "copy" -> CopyFails(ev)
+                    (* dict() and mod_dict() hand out what the caller owns: editing every modification object inside them,  *)
+                    (* field by field, leaves the annotation as it was                                                   *)
+                    [] ev.op = "dictedit" -> (IF ev.out # "ret" THEN {"raised_" \o ev.out}
+                                              ELSE Pre("source_changed_by_editing_returned_dictionary_", Diff(ev.origAfter, ev.A)))
                     [] ev.op = "strip" -> StripFails(ev)
                     [] ev.op = "eq" -> EqFails(ev)
                     [] ev.op = "shift" -> ShiftFails(ev)
